@@ -257,6 +257,13 @@ fn run(line: &str) -> String {
             },
             Err(e) => format!("err parse:{}", e),
         },
+        "localtime_total" => match zone(&mut t) {
+            Ok(z) => match TimeZoneRef::new(&z.tr, &z.ty, &z.ls, &z.rule) {
+                Ok(r) => res(DateTime::from_total_nanoseconds(t.n(), r), |d| format!("{} total={}", show_dt(d), d.total_nanoseconds())),
+                Err(e) => format!("err zone:{:?}", e),
+            },
+            Err(e) => format!("err parse:{}", e),
+        },
         "u2l" | "l2u" => {
             let which = t.v[0];
             match zone(&mut t) {
